@@ -13,8 +13,9 @@ var c09SyncState = regexp.MustCompile(`server\.\(\*Dataset\)\.(StartFullSync|Sta
 
 func init() {
 	plans["C09"] = Plan{Prop: "C09", Level: "exploration",
-		Rule: "seeded histories (9-20 ops; 30% open with one of 9 directed orders, then a random walk) over one dataset of HTTP start/batch/end requests (matching, foreign, missing sync id — also id-less starts and ends) through the real echo router and handler, POST /transactions writes into the dataset (real handler, Store.ExecuteTransaction), " +
+		Rule: "seeded histories (9-20 ops; the first 1 (quick) / 4 (thorough) cases of every plain child are large-dataset cases: 1100-2300 entities, a sync that re-sends a prefix / a suffix / all but one page of 1000 / a random 90% / a prefix without its head; of the others 30% open with one of 10 directed orders, then a random walk) over one dataset of HTTP start/batch/end requests (matching, foreign, missing sync id — also id-less starts and ends) through the real echo router and handler, POST /transactions writes into the dataset (real handler, Store.ExecuteTransaction), " +
 			"end requests whose request context is cancelled before the request or at ds.completeFullSync.begin (client gone / timed out; HTTP and job), sleeps of 3.2 lease timeouts after such a failed end, " +
+			"job ends during which (from the hook point ds.completeFullSync.begin, on the end's goroutine) another HTTP or job sync is started, " +
 			"job-style StartFullSync/StoreEntities/CompleteFullSync calls (what jobs.datasetSink does), header-less writes, writes of an incremental job, sleeps past the lease (100-200 ms) " +
 			"and groups of concurrent requests; 60% of the cases stretch ds.lease.afterDone / web.fullsync.beforeRelease / ds.completeFullSync.begin. " +
 			"The feed is read before and after every op and after a final sleep; verdicts key on status codes and feed contents only. " +
@@ -28,6 +29,7 @@ func init() {
 			"race-detector blocks decide only when one side is a runtime map access (the normal runtime kills the process on those); other blocks on the sync state are reported as counters",
 			"an HTTP end request can only be the end of an HTTP sync: answered 200 while a job-driven sync is the current one it is a violation (HEAD answers 410)",
 			"an HTTP sync whose own end request was refused with 5xx is not completed; a retry that the hub answers 200 is judged by the completion rule. Once the HISTORY has ordered sleeps of >= 3 lease timeouts after the refusal with no accepted request of that sync in between, the sync must be dead (a non-matching write answered 409 or a late end answered 200 is a violation). This is the only verdict that uses a duration, and it is the requested sleep of the history (a lower bound of the real wait), never a measured time",
+			"a start issued from inside a job's end request: either the end completes ITS sync (answered nil: judged against the sync that was current before the start, the start's body may get at most one tombstone) or the start supersedes it (error / no effect); in both cases the new sync is the current one afterwards and is judged by its own batches and end",
 			"a transaction carries no sync id; answered 200 it is a write into the dataset and counts as written since the start of whatever sync is running",
 			"the body of a refused (410/5xx) end request issued inside another sync may or may not have been stored: its entities may get at most one tombstone when that sync completes",
 		},
@@ -36,9 +38,9 @@ func init() {
 			if tier == "thorough" {
 				n, c, rn, rc = 16, 300, 8, 100
 			}
-			bulk := "0"
+			bulk := "1"
 			if tier == "thorough" {
-				bulk = "1100"
+				bulk = "4"
 			}
 			return []Stage{
 				{Name: "seq", Scenario: "c09fullsync", Args: "par=12,hooks=60,bulk=" + bulk, Children: n, Cases: c, Timeout: 14 * time.Minute},
